@@ -168,6 +168,22 @@ pub fn extreme_literal(t: &mut Tape) -> Vec<PoeticElem> {
         }
     }
     let mut v = vec![];
+    if t.chance(1, 12) {
+        // one enormous word (its length beyond what 8 or 16 bits can count) among a few ordinary ones
+        let len = *t.choose(&[255usize, 256, 257, 300, 1000, 65_535, 65_536, 65_537, 70_003]);
+        let at = t.pick(3);
+        for i in 0..3 {
+            if i == at {
+                v.push(PoeticElem::Word("x".repeat(len)));
+            } else {
+                v.push(PoeticElem::Word("q".repeat(1 + t.pick(9))));
+            }
+            if i == 0 && t.chance(1, 3) {
+                v.push(PoeticElem::Dot);
+            }
+        }
+        return v;
+    }
     let before = side(t);
     fill(t, before, &mut v);
     if t.chance(2, 3) {
